@@ -43,10 +43,12 @@ def run (line : String) : String × String :=
   match runP (Cfg.case "LAY") line with
   | .error e => (s!"bad-case {e}", "-")
   | .ok c =>
-    -- the harness appends the verdict of "layer table built by the parser = the generator's intent";
+    -- the harness appends the verdict of "layer table built by the parser = the generator's intent"
+    -- and of "the OS key events of the real Kanata are the de-duplicated diff of consecutive key
+    -- lists" (no release of a key that is up, no press of a key that is down: `release_once`);
     -- the model runs on the table the parser built, so its side of that comparison is always `ok`
     let m0 := Lay.modelOut c
-    let model := if m0.startsWith "rej" || m0.startsWith "crash" || m0.startsWith "unsupported" then m0 else m0 ++ " TBL=ok"
+    let model := if m0.startsWith "rej" || m0.startsWith "crash" || m0.startsWith "unsupported" then m0 else m0 ++ " TBL=ok OS=ok"
     let spec := match c.layout with
       | none => "-"
       | some l =>
